@@ -314,6 +314,88 @@ async fn test_multipart() -> Result<()> {
 
 #[tokio::test]
 #[tracing::instrument]
+async fn test_multipart_failed_complete() -> Result<()> {
+    use aws_sdk_s3::error::ProvideErrorMetadata;
+
+    let _guard = serial().await;
+
+    let c = Client::new(config());
+
+    let bucket = format!("test-multipart-failed-{}", Uuid::new_v4());
+    let bucket = bucket.as_str();
+    create_bucket(&c, bucket).await?;
+
+    let key = "sample.txt";
+    let content = "abcdefghijklmnopqrstuvwxyz/0123456789/!@#$%^&*();\n";
+
+    let upload_id = {
+        let ans = c.create_multipart_upload().bucket(bucket).key(key).send().await?;
+        ans.upload_id.unwrap()
+    };
+    let upload_id = upload_id.as_str();
+
+    {
+        let body = ByteStream::from_static(content.as_bytes());
+        c.upload_part()
+            .bucket(bucket)
+            .key(key)
+            .upload_id(upload_id)
+            .body(body)
+            .part_number(1)
+            .send()
+            .await?;
+    }
+
+    let completed = |part_numbers: &[i32]| {
+        let parts = part_numbers
+            .iter()
+            .map(|&n| CompletedPart::builder().part_number(n).build())
+            .collect();
+        CompletedMultipartUpload::builder().set_parts(Some(parts)).build()
+    };
+
+    // a part that has not been uploaded: the request is refused ...
+    {
+        let err = c
+            .complete_multipart_upload()
+            .bucket(bucket)
+            .key(key)
+            .multipart_upload(completed(&[1, 2]))
+            .upload_id(upload_id)
+            .send()
+            .await
+            .unwrap_err();
+        assert_eq!(err.code(), Some("InvalidPart"));
+
+        let err = c.get_object().bucket(bucket).key(key).send().await.unwrap_err();
+        assert_eq!(err.code(), Some("NoSuchKey"));
+    }
+
+    // ... and the upload can still be completed
+    {
+        c.complete_multipart_upload()
+            .bucket(bucket)
+            .key(key)
+            .multipart_upload(completed(&[1]))
+            .upload_id(upload_id)
+            .send()
+            .await?;
+
+        let ans = c.get_object().bucket(bucket).key(key).send().await?;
+        let body = ans.body.collect().await?.into_bytes();
+        assert_eq!(body.as_ref(), content.as_bytes());
+    }
+
+    {
+        delete_object(&c, bucket, key).await?;
+        delete_bucket(&c, bucket).await?;
+    }
+
+    Ok(())
+}
+
+#[tokio::test]
+#[tracing::instrument]
 async fn test_upload_part_copy() -> Result<()> {
     let _guard = serial().await;
 
